@@ -27,9 +27,10 @@ ASSUMPTIONS = ["SQLite backend", "only behaviour decides (result differs from th
 
 SHAPES = {
     "mid": {"shallow": ["mid"], "program": "top", "edits": [("leafA", 1), ("plus", 1), ("leafB", 1), ("mid", 1)]},
-    "top": {"shallow": ["top"], "program": "deep", "edits": [("leafA", 2), ("plus", 2), ("mid", 1), ("leafB", 2), ("top", 1)]},
+    "top": {"shallow": ["top"], "program": "deep", "edits": [("leafA", 2), ("plus", 2), ("mid", 1), ("leafB", 2), ("top", 1)],
+            "ext": "newtop"},
     "deep": {"shallow": ["deep"], "program": "deep2", "edits": [("leafA", 1), ("mid", 2), ("top", 2), ("leafB", 1)]},
-    "nested": {"shallow": ["top", "mid"], "program": "deep", "edits": [("leafA", 1), ("plus", 1), ("mid", 2)]},
+    "nested": {"shallow": ["top", "mid"], "program": "deep", "edits": [("leafA", 1), ("plus", 1), ("mid", 2)], "ext": "newtop"},
     "guarded": {"shallow": ["guarded"], "program": "guardedmix", "edits": [("leafA", 1), ("recover", 1)]},
 }
 
@@ -41,9 +42,12 @@ def config(shape):
     return cfg
 
 
-def expr(shape):
+def expr(shape, program=None):
     T = hist.T
-    p = SHAPES[shape]["program"]
+    p = program or SHAPES[shape]["program"]
+    if p == "newtop":
+        # a shallow parent call that is new to the database, above a child call (mid(2)) that is already recorded
+        return T["top"](2, 6)
     if p == "top":
         return [T["top"](2, 3), T["mid"](2)]
     if p == "deep":
@@ -61,13 +65,13 @@ def setup(shape, edit=None):
         hist.define(*edit)
 
 
-def run_file(path, shape, crash=None, transient=None):
+def run_file(path, shape, crash=None, transient=None, program=None):
     backend = c22.open_backend(path)
     plan = faults.FaultPlan(backend, crash=crash, transient=transient)
     try:
         with plan:
             try:
-                key, out, calls, c = hist.run(lambda: expr(shape), backend)
+                key, out, calls, c = hist.run(lambda: expr(shape, program), backend)
                 return "done", key, plan, calls
             except faults.Crash:
                 return "crashed", None, plan, []
@@ -91,6 +95,10 @@ def classify(pre):
     if kind in ("crash", "transient"):
         return "call-node-visible-before-its-subtree-task-rows"
     return "unclassified"
+
+
+def classify_ext(pre):
+    return "parent-recorded-above-cached-child-has-incomplete-subtree-tasks:" + pre[0]
 
 
 def after_prehistory(ctx, shape, path, pre, scratch):
@@ -138,6 +146,46 @@ def after_prehistory(ctx, shape, path, pre, scratch):
     for p in (p0,):
         if os.path.exists(p):
             os.unlink(p)
+    # extension: a new shallow parent call is recorded above calls the pre-history left in the database (its subtree
+    # task set is derived from what is recorded for the cached children); then every subtree task is edited
+    ext = SHAPES[shape].get("ext")
+    if ext:
+        pe = path + ".ext"
+        shutil.copy(path, pe)
+        setup(shape)
+        exp_e, _ = hist.fresh_result(lambda: expr(shape, ext))
+        setup(shape)
+        try:
+            kind, key, _, calls = run_file(pe, shape, program=ext)
+        except Exception as ex:
+            kind, key = "raised", ("e", type(ex).__name__, str(ex)[:200])
+        if kind != "done" or not c22.same(key, exp_e):
+            ctx.violation("unclassified" if pre[0] == "clean" else "rerun-after-" + pre[0],
+                          "extension program returned %r, empty backend returns %r" % (key, exp_e), dict(wit, program=ext))
+        else:
+            ctx.count("extension_runs")
+            if "mid" not in {n for n, _ in calls}:
+                ctx.count("extension_child_served_from_cache")
+            for edit in SHAPES[shape]["edits"]:
+                setup(shape, edit)
+                exp, _ = hist.fresh_result(lambda: expr(shape, ext))
+                p1 = path + ".edit"
+                shutil.copy(pe, p1)
+                setup(shape, edit)
+                try:
+                    kind, key, _, calls = run_file(p1, shape, program=ext)
+                except Exception as ex:
+                    kind, key = "raised", ("e", type(ex).__name__, str(ex)[:200])
+                ctx.ev()
+                ctx.count("edited_reruns")
+                ctx.count("edited_reruns_of_extension")
+                ctx.nontrivial([shape, pre, edit, "ext"])
+                if kind != "done" or not c22.same(key, exp):
+                    ctx.violation(classify_ext(pre), "after %r and a new parent call above the recorded child, editing %s: shallow "
+                                  "rerun of the parent returned %r, empty backend returns %r" % (pre, edit[0], key, exp),
+                                  dict(wit, edit=list(edit), program=ext))
+                os.unlink(p1)
+        os.unlink(pe)
 
 
 def measure(shape, scratch):
@@ -216,6 +264,11 @@ def main(ctx):
     if quick and ctx.seed % 2:
         shapes = ["nested", "deep"]
     jobs = []
+    for s in SHAPES:
+        if s not in shapes:
+            # the cheap pre-histories of every shape on every run
+            for kind in ("clean", "sync", "export-import"):
+                jobs.append({"shape": s, "kind": kind, "points": [0]})
     for s in shapes:
         nc, ns = sizes[s]
         jobs.append({"shape": s, "kind": "clean", "points": [0]})
